@@ -258,8 +258,13 @@ func (s *sut) proj() M {
 		if len(dd.ActiveFund) > 0 {
 			aok, af = fund(dd.ActiveFund)
 		}
+		// what the real contract would pay the delegator now: its own view function getClaimableRewards
+		clm := 0
+		if rc, data := w.Query(s.addr, user(d), "getClaimableRewards", [][]byte{user(d)}); rc == vmcommon.Ok && len(data) > 0 {
+			clm = bi(big.NewInt(0).SetBytes(data[len(data)-1]))
+		}
 		del[d] = M{"ex": len(buf) > 0, "has": len(dd.ActiveFund) > 0, "aok": aok, "a": bi(af.Value), "un": un,
-			"unc": bi(dd.UnClaimedRewards), "ckpt": int(dd.RewardsCheckpoint)}
+			"unc": bi(dd.UnClaimedRewards), "ckpt": int(dd.RewardsCheckpoint), "clm": clm}
 	}
 	rew := []interface{}{}
 	for e := uint32(0); e <= w.Epoch; e++ {
@@ -306,6 +311,7 @@ func replay(path, mismatchOut string) {
 	distinct := vtrace.NewDistinct()
 	steps, mism, kdSeen, kdNot := 0, 0, 0, 0
 	acts := map[string]int{}
+	okActs := map[string]int{}
 	type obs struct {
 		a   string
 		in  M
@@ -328,6 +334,9 @@ func replay(path, mismatchOut string) {
 			ok, paid := s.apply(stp.A, stp.In)
 			st := s.proj()
 			steps++
+			if ok {
+				okActs[stp.A]++
+			}
 			seen = append(seen, obs{stp.A, stp.In, M{"ok": ok, "paid": paid}, st})
 			eq := ok == stp.Out["ok"].(bool) && paid == vtrace.Int(stp.Out["paid"]) && (len(stp.St) == 0 || same(stp.St, st))
 			if !eq && differs < 0 {
@@ -386,6 +395,7 @@ func replay(path, mismatchOut string) {
 	vtrace.Stat("known_deviation_reproduced", kdSeen)
 	vtrace.Stat("known_deviation_not_reproduced", kdNot)
 	vtrace.Stat("last_actions", acts)
+	vtrace.Stat("ok_actions", okActs)
 }
 
 func record(seed int64, traces, n int, out string) {
